@@ -2,8 +2,10 @@
 
   C07.R1  rule generation: one should(-only) rule per component with arrows over all its targets; one should-not rule per component
           over all non-targets other than itself, emitted iff non-empty; nothing else
-  C07.R2  aggregation: all rules are evaluated, only AssertionError is collected, the joined message is raised after the loop;
-          the aggregate of one evaluation contains nothing from earlier evaluations
+  C07.R2  aggregation: all rules are evaluated, only AssertionError is collected, the joined message is raised after the loop and
+          contains the message of EVERY element whose assert_applies raised (bag of joined lines = bag of caught messages: no
+          overwrite by a key that two rules can share, no selection, no truncation); the aggregate of one evaluation contains
+          nothing from earlier evaluations
   C07.R3  prefixing: with_base_module(p) prefixes the component set, the keys and the values; identity without a base module;
           the pipeline parse -> prefix -> convert -> apply hands each stage's result to the next; default mode is should-only
 
